@@ -14,7 +14,7 @@ segment" means.
 * polygon / multipolygon: the winding loop is pinned down operator by operator (`C02_edge_rule`, its geometric reading
   `C02_edge_rule_geometric`), shown antisymmetric under reversal of an edge and of a ring, **zero outside the bounding box** of a
   closed ring and **constant along every horizontal or vertical segment, hence on every box, that contains no point of the
-  ring** (`C02_winding_far`, `C02_winding_moves`, `C02_winding_constant_off_ring`, and jumping by exactly the edge's direction when one edge is crossed, `C02_winding_jump`: the formalised Appendix B of DESIGN.md, stated
+  ring** (`C02_winding_far`, `C02_winding_moves`, `C02_winding_constant_off_ring`, and jumping by exactly the edge's direction when one edge is crossed, `C02_winding_jump`; for triangles the full statement - `±1` strictly inside, `0` strictly outside - is proved (`C02_triangle_inside`, `C02_triangle_outside`): the formalised Appendix B of DESIGN.md, stated
   at rational points and tied to the coded loop by `C02_winding_rational`), and the decision logic "inside a shell and in none
   of its holes" is derived from the per-ring facts (`C02_polygon_logic`, `C02_multipolygon_logic`).  What is **not** proved is the
   topological fact that for a *simple* ring every point off the ring can be joined to infinity crossing the ring transversally
@@ -134,6 +134,23 @@ theorem C02_triangle_inside (a b c p : Pt) :
   rcases h with ⟨h1, h2, h3⟩ | ⟨h1, h2, h3⟩
   · rw [triangle_ccw_inside a b c p h1 h2 h3]; decide
   · rw [triangle_cw_inside a b c p h1 h2 h3]; decide
+
+/-- **triangles, outside**: about a point strictly on the wrong side of some edge of a non-degenerate triangle the winding number
+is `0`, in either orientation - so, off the boundary, `point_intersects_polygon` is exactly "strictly inside the triangle" -/
+theorem C02_triangle_outside (a b c p : Pt) :
+    (0 < orientI a b c → (orientI a b p < 0 ∨ orientI b c p < 0 ∨ orientI c a p < 0) → pointPolygon p [[a, b, c, a]] = false) ∧
+    (orientI a b c < 0 → (0 < orientI a b p ∨ 0 < orientI b c p ∨ 0 < orientI c a p) → pointPolygon p [[a, b, c, a]] = false) := by
+  constructor
+  · intro hA hout
+    unfold pointPolygon pointInRings
+    rw [winding_eq_sum]
+    simp only [List.map_cons, List.map_nil, List.sum_cons, List.sum_nil, ringWinding_eq]
+    rw [triangle_ccw_outside a b c p hA hout]; decide
+  · intro hA hout
+    unfold pointPolygon pointInRings
+    rw [winding_eq_sum]
+    simp only [List.map_cons, List.map_nil, List.sum_cons, List.sum_nil, ringWinding_eq]
+    rw [triangle_cw_outside a b c p hA hout]; decide
 
 /-- sum over the holes of `[p inside h]` when at most one hole contains `p` -/
 theorem sum_ind_le_one (ins : List Pt → Bool) (holes : List (List Pt))
